@@ -381,6 +381,11 @@ func freqRates(rng *rand.Rand, nrates int) []float64 {
 	for i := 0; i < nrates; i++ {
 		rates = append(rates, float64(1+rng.Intn(1000000)))
 	}
+	for i := 0; i < nrates; i++ { // integer rates whose period 10^9/f is close to a whole number of nanoseconds
+		p := 1000 + rng.Intn(1000000)
+		rates = append(rates, math.Round(1e9/float64(p)))
+	}
+	rates = append(rates, 999001, 998004, 253614, 1e9/1024, 1e6-1)
 	return append(rates, 1, 2, 3, 7, 1000000, 999999, 44100.5, 0.5, 1.0/3, 47999.99, 12345.678, 29.97, 59.94, 1e6+0.5, 44100.4, 2.6, 48000/1.001)
 }
 
@@ -398,6 +403,14 @@ func freqSweep(w *numWriter, rng *rand.Rand, rates []float64, ncounts int) {
 			for d := -2; d <= 2; d++ {
 				if n+d >= 0 {
 					set[n+d] = struct{}{}
+				}
+			}
+		}
+		// integer-overflow and float-precision boundaries of n*10^9 (2^63, 2^63-f/2, 2^53)
+		for _, b := range []float64{math.MaxInt64 / 1e9, (math.MaxInt64 - r/2) / 1e9, float64(1<<53) / 1e9, float64(1 << 53), float64(1<<53) / r} {
+			for d := -3; d <= 3; d++ {
+				if v := int(b) + d; v >= 0 && v <= maxN {
+					set[v] = struct{}{}
 				}
 			}
 		}
@@ -424,6 +437,14 @@ func freqSweep(w *numWriter, rng *rand.Rand, rates []float64, ncounts int) {
 			for e := int64(-2); e <= 2; e++ {
 				if dd+e >= 0 && dd+e <= int64(24*time.Hour) {
 					dset[dd+e] = struct{}{}
+				}
+			}
+		}
+		// integer-overflow and float-precision boundaries of d*f (2^63, 2^63-5e8, 2^53)
+		for _, b := range []float64{math.MaxInt64 / r, (math.MaxInt64 - 5e8) / r, float64(1<<53) / r, float64(1 << 53)} {
+			for e := int64(-3); e <= 3; e++ {
+				if v := int64(b) + e; v >= 0 && v <= int64(24*time.Hour) && b < 1e18 {
+					dset[v] = struct{}{}
 				}
 			}
 		}
